@@ -589,10 +589,12 @@ func main() {
 	res = report.Init("C20", "exploration")
 	e1()
 	e2()
+	e3()
 	res.Info["grid"] = map[string]any{"E1_targets": "every shipped listing parser, metrics extraction of every profile that enables it, TransformResponse, one streaming chunk",
 		"E1_deviations": "delete / duplicate / replace by {null, {}, [], \"\", -1, 1e999, \"\\ud800\", 300 x '['} / truncate, up to 2 (second level restricted in quick tier)", "E1_token_strings": "length <=4 (5 thorough) over 12 tokens",
-		"E2_outcomes": []string{"valid-L1", "valid-L2", "empty-body", "empty-object", "garbage", "nameless-entries", "duplicate-entries", "oversized(10MiB+)", "http-500", "stall"},
+		"E2_outcomes":        []string{"valid-L1", "valid-L2", "empty-body", "empty-object", "garbage", "nameless-entries", "duplicate-entries", "oversized(10MiB+)", "http-500", "stall"},
 		"E2_outcomes_ollama": []string{"valid-L1", "valid-L2-other-digests", "same-names-short-digests", "same-names-empty-digests", "name-twice-different-digests", "hostile-numbers-and-details", "empty-object", "garbage", "http-500"}, "E2_depth": map[string]int{"quick": 2, "thorough": 3}[report.Tier]}
+	res.Info["E3"] = "completions through both engines: stream_buffer_size {4 KiB, 8 KiB, 16 KiB, 64 KiB} x body sizes around those buffers x {Content-Length, chunked, close-delimited} x {200, 500} x {JSON completion, text with a hostile usage tail, binary} x {proxy, Anthropic buffered, Anthropic streaming}"
 	res.Info["rule"] = "one evaluation = one hostile input fed to one entry point, or one discovery round; distinct_nontrivial = distinct first-level deviations per target and distinct discovery histories"
 	res.Assume("'all byte strings' is unbounded: this decides the <=2-deviation neighbourhood of real response shapes and all short token strings, nothing beyond (coverage-guided fuzzing is a different family)")
 	res.Finish()
